@@ -70,7 +70,7 @@ def begin_lines(c, label, pre=None):
 
 def plan(c):
     return ([("U",)] + [("AB", K, fmt) for K in c["Ks"] for fmt in c["fmts"]] + [("Q", K) for K in c.get("auto_Ks", [])]
-            + [("M", K, fmt) for K, fmt in c.get("buffer_Ks", [])]
+            + [("M", K, fmt) for K, fmt in c.get("buffer_Ks", [])] + [("C", K1, K2, fmt) for K1, K2, fmt in c.get("chain_Ks", [])]
             + [("R", K) for K in c.get("boundary_Ks", [])])
 
 
@@ -114,6 +114,25 @@ def scenario(c, d, runs=None):
             for t in range(K, T):
                 L += step_lines(c, t)
             L += ["save text %sQB_%d.colvars.state" % (pre, K)]
+        elif run[0] == "C":
+            # three jobs: stop after K1, resume, stop after K2, resume, go on to the end
+            _, K1, K2, fmt = run
+            lab = "%d_%d_%s" % (K1, K2, fmt)
+            f1, f2 = "%sc1_%s" % (pre, lab), "%sc2_%s" % (pre, lab)
+            L += begin_lines(c, "C1_" + lab, pre)
+            for t in range(K1 + 1):
+                L += step_lines(c, t)
+            L += ["save %s %s.colvars.state" % (fmt, f1)]
+            L += begin_lines(c, "C2_" + lab, pre)
+            L += ["load %s" % f1]
+            for t in range(K1, K2 + 1):
+                L += step_lines(c, t)
+            L += ["save %s %s.colvars.state" % (fmt, f2)]
+            L += begin_lines(c, "C3_" + lab, pre)
+            L += ["load %s" % f2]
+            for t in range(K2, T):
+                L += step_lines(c, t)
+            L += ["save text %sC3_%s.colvars.state" % (pre, lab)]
         elif run[0] == "M":
             # the state travels as a buffer in memory (checkpoint of the engine, `cv savetostring`), not as a file
             _, K, fmt = run
